@@ -423,4 +423,303 @@ theorem dijkstraLoop_spec (g : DGraph) (M src : Nat) (hg : GraphOK g) (ho : NoOv
           exact r6 e (by simp only [DGraph.outEdges, List.mem_filter, decide_eq_true_eq]; exact ⟨he, hxv ▸ hs⟩)
         · exact r2 x hx hxv hfx
 
+/- ---------------------------------------------------------------- initialisation -/
+
+/-- cost_arr / pred_arr / pqueue before the loop (code as it is now: `pred_arr[i] = ULONG_MAX`) -/
+def dijkstraInit (g : DGraph) (src : Nat) : DState :=
+  let n := g.nodes.length
+  let cost := (List.range n).map fun i => if i = src then 0 else ULONG_MAX
+  { cost := cost, pred := List.replicate n ULONG_MAX, queue := (List.range n).map fun i => (cost.getD i 0, i) }
+
+theorem dijkstraPreds_now (g : DGraph) (fuel src : Nat) :
+    dijkstraPreds DVar.now g fuel src = (dijkstraLoop DVar.now g fuel (dijkstraInit g src)).map (·.pred) := by
+  simp [dijkstraPreds, dijkstraInit, DVar.now, fixedUnreachableGuard]
+
+theorem getD_map_range (n u : Nat) (f : Nat → Nat) (hu : u < n) : ((List.range n).map f).getD u 0 = f u := by
+  simp [List.getD_eq_getElem?_getD, List.getElem?_map, List.getElem?_range hu]
+
+theorem dijkstraInit_inv (g : DGraph) (M src : Nat) (hs : src < g.nodes.length) : DInv g M src (dijkstraInit g src) := by
+  have hc : ∀ u, u < g.nodes.length → (dijkstraInit g src).c u = if u = src then 0 else ULONG_MAX := by
+    intro u hu; simp only [DState.c, dijkstraInit]; exact getD_map_range _ _ _ hu
+  have hp : ∀ u, u < g.nodes.length → (dijkstraInit g src).p u = ULONG_MAX := by
+    intro u hu
+    simp [DState.p, dijkstraInit, List.getD_eq_getElem?_getD, List.getElem?_replicate, hu]
+  have hn : 1 ≤ (dijkstraInit g src).nfin := by
+    apply List.countP_pos_iff.mpr
+    refine ⟨0, ?_, by decide⟩
+    simp only [dijkstraInit, List.mem_map, List.mem_range]
+    exact ⟨src, hs, by simp⟩
+  refine ⟨⟨by simp [dijkstraInit], by simp [dijkstraInit], by rw [hc src hs]; simp, ?_, ?_, ?_⟩, ?_, ?_⟩
+  · intro u hu
+    rw [hc u hu]
+    by_cases hus : u = src
+    · right; simp only [hus, if_true]
+      have := Nat.mul_le_mul_right M hn
+      omega
+    · left; simp [hus]
+  · intro u hu hus hf
+    rw [hc u hu] at hf; simp [hus] at hf
+  · intro u hu _; exact hp u hu
+  · intro x hx _ hfx
+    rw [hc x hx] at hfx
+    have hxs : x = src := by
+      apply Classical.byContradiction; intro hne; simp [hne] at hfx
+    right
+    refine ⟨(dijkstraInit g src).c src, ?_⟩
+    simp only [dijkstraInit, DState.c, List.mem_map, List.mem_range]
+    exact ⟨src, hs, by rw [hxs]⟩
+  · intro q hq
+    simp only [dijkstraInit, List.mem_map, List.mem_range] at hq
+    obtain ⟨i, hi, he⟩ := hq
+    rw [← he]; exact hi
+
+/- ---------------------------------------------------------------- after the loop -/
+
+def EdgeChain (g : DGraph) : Nat → List DEdge → Nat → Prop
+  | a, [], b => a = b
+  | a, e :: es, b => e ∈ g.edges ∧ e.src = a ∧ EdgeChain g e.dst es b
+
+theorem edgeChain_snoc (g : DGraph) (e : DEdge) (he : e ∈ g.edges) : ∀ (es : List DEdge) (a : Nat),
+    EdgeChain g a es e.src → EdgeChain g a (es ++ [e]) e.dst := by
+  intro es
+  induction es with
+  | nil => intro a h; simp only [EdgeChain] at h; exact ⟨he, h.symm, rfl⟩
+  | cons x xs ih => intro a h; exact ⟨h.1, h.2.1, ih x.dst h.2.2⟩
+
+/-- total link count of a chain of edges -/
+def chainLen (es : List DEdge) : Nat := (es.flatMap fun e => e.links).length
+
+theorem chainLen_cons (e : DEdge) (es : List DEdge) : chainLen (e :: es) = e.links.length + chainLen es := by
+  simp [chainLen]
+
+/-- the state when the loop is left: the invariant, and no edge out of a finite node is tense -/
+structure DFinal (g : DGraph) (M src : Nat) (st : DState) : Prop where
+  core : DCore g M src st
+  relaxed : ∀ e ∈ g.edges, st.c e.src ≠ ULONG_MAX → st.c e.dst ≤ st.c e.src + e.links.length
+
+theorem DInv.final {g : DGraph} {M src : Nat} {st : DState} (h : DInv g M src st) (hg : GraphOK g)
+    (hq : st.queue = []) : DFinal g M src st := by
+  refine ⟨h.core, ?_⟩
+  intro e he hf
+  rcases h.clean e.src (hg.bound e he).1 trivial hf with hl | ⟨k, hk⟩
+  · exact hl e he rfl
+  · rw [hq] at hk; cases hk
+
+/-- **completeness and lower bound**: every node reachable from a finite node by a chain of edges has a finite cost,
+at most the cost of the start plus the link count of the chain -/
+theorem DFinal.reach {g : DGraph} {M src : Nat} {st : DState} (h : DFinal g M src st) (hg : GraphOK g)
+    (ho : NoOverflow g M) : ∀ (es : List DEdge) (a v : Nat), a < g.nodes.length → st.c a ≠ ULONG_MAX →
+    EdgeChain g a es v → v < g.nodes.length ∧ st.c v ≠ ULONG_MAX ∧ st.c v ≤ st.c a + chainLen es := by
+  intro es
+  induction es with
+  | nil =>
+    intro a v ha hf hc
+    simp only [EdgeChain] at hc
+    subst hc
+    exact ⟨ha, hf, by simp [chainLen]⟩
+  | cons e es ih =>
+    intro a v ha hf hc
+    obtain ⟨he, hs, hrest⟩ := hc
+    subst hs
+    have hle := h.relaxed e he hf
+    obtain ⟨hr1, hr2⟩ := h.core.room ho e.src ha hf e he
+    obtain ⟨i1, i2, i3⟩ := ih e.dst v (hg.bound e he).2 (by omega) hrest
+    exact ⟨i1, i2, by rw [chainLen_cons]; omega⟩
+
+/-- the predecessor array after the loop, exact form -/
+theorem DFinal.tree_eq {g : DGraph} {M src : Nat} {st : DState} (h : DFinal g M src st) (u : Nat)
+    (hu : u < g.nodes.length) (hus : u ≠ src) (hf : st.c u ≠ ULONG_MAX) :
+    st.p u < g.nodes.length ∧ st.c (st.p u) ≠ ULONG_MAX ∧
+    ∃ e ∈ g.edges, e.src = st.p u ∧ e.dst = u ∧ st.c (st.p u) + e.links.length = st.c u := by
+  obtain ⟨h1, h2, e, he, hs, hd, hle⟩ := h.core.tree u hu hus hf
+  refine ⟨h1, h2, e, he, hs, hd, ?_⟩
+  have := h.relaxed e he (by rw [hs]; exact h2)
+  rw [hs, hd] at this
+  omega
+
+theorem now_guard : DVar.now.guard = true := rfl
+theorem now_hop : DVar.now.hop = true := rfl
+theorem insertFront_now (acc l : List Lk) : insertFront DVar.now acc l = l ++ acc := by simp [insertFront, now_hop]
+
+theorem nodup_bound' (n : Nat) (l : List Nat) (hd : l.Nodup) (hb : ∀ x ∈ l, x < n) : l.length ≤ n := by
+  have := List.Nodup.length_le_of_subset hd (l₂ := List.range n) (fun x hx => List.mem_range.mpr (hb x hx))
+  simpa using this
+
+/-- **the composition loop terminates within the fuel and collects exactly cost_arr[v] links**: `seen` = the nodes
+visited before `v` (all with a larger cost, hence distinct) -/
+theorem dijkstraWalk_ok (g : DGraph) (M src : Nat) (st : DState) (hg : GraphOK g) (ho : NoOverflow g M)
+    (h : DFinal g M src st) : ∀ (f v : Nat) (acc : List Lk) (seen : List Nat), v < g.nodes.length →
+      st.c v ≠ ULONG_MAX → seen.Nodup → (∀ x ∈ seen, x < g.nodes.length ∧ st.c v < st.c x) →
+      g.nodes.length ≤ f + seen.length →
+      ∃ links, dijkstraWalk DVar.now g st.pred src f v acc = .ok (links ++ acc) ∧ links.length = st.c v := by
+  intro f
+  induction f with
+  | zero =>
+    intro v acc seen hv _ hnd hseen hf
+    have hnot : v ∉ seen := fun hm => by have := (hseen v hm).2; omega
+    have := nodup_bound' g.nodes.length (v :: seen) (List.nodup_cons.mpr ⟨hnot, hnd⟩) (by
+      intro x hx
+      rcases List.mem_cons.mp hx with h' | h'
+      · omega
+      · exact (hseen x h').1)
+    simp at this; omega
+  | succ f ih =>
+    intro v acc seen hv hfin hnd hseen hf
+    unfold dijkstraWalk
+    by_cases hvs : v = src
+    · simp only [hvs, if_true]
+      exact ⟨[], rfl, by rw [← hvs] ; have := h.core.src0; rw [← hvs] at this; simp [this]⟩
+    · simp only [hvs, if_false]
+      obtain ⟨hp1, hp2, e, he, hs, hd, heq⟩ := h.tree_eq v hv hvs hfin
+      have hpos : 0 < e.links.length := List.length_pos_iff.mpr (hg.pos e he)
+      have hM := ho.wle e he
+      have hsmall := ho.small
+      have hpm : st.pred.getD v 0 ≠ ULONG_MAX := by
+        intro e'
+        have h1 : st.p v < g.nodes.length := hp1
+        unfold DState.p at h1
+        have : g.nodes.length ≤ g.nodes.length * M := Nat.le_mul_of_pos_right _ (by omega)
+        omega
+      have hfe : g.findEdge (st.pred.getD v 0) v = some e := by
+        have := hg.uniq e he
+        rw [hs, hd] at this; exact this
+      simp only [now_guard, Bool.true_and, decide_eq_true_eq, hpm, if_false, hfe]
+      have hnot : v ∉ seen := fun hm => by have := (hseen v hm).2; omega
+      obtain ⟨links, hw, hlen⟩ := ih (st.p v) (insertFront DVar.now acc e.links) (v :: seen) hp1 hp2
+        (List.nodup_cons.mpr ⟨hnot, hnd⟩)
+        (by
+          intro x hx
+          rcases List.mem_cons.mp hx with h' | h'
+          · rw [h']; exact ⟨hv, by omega⟩
+          · exact ⟨(hseen x h').1, by have := (hseen x h').2; omega⟩)
+        (by simp; omega)
+      refine ⟨links ++ e.links, ?_, by simp [hlen]; omega⟩
+      rw [insertFront_now] at hw ⊢
+      rw [List.append_assoc]; exact hw
+
+/-- a destination whose cost stayed ULONG_MAX: "No route" at the first step of the composition -/
+theorem dijkstraWalk_noRoute (g : DGraph) (M src : Nat) (st : DState) (h : DFinal g M src st) (f v : Nat)
+    (acc : List Lk) (hv : v < g.nodes.length) (hvs : v ≠ src) (hinf : st.c v = ULONG_MAX) :
+    dijkstraWalk DVar.now g st.pred src (f + 1) v acc = .error .noRoute := by
+  have := h.core.unre v hv hinf
+  unfold DState.p at this
+  unfold dijkstraWalk
+  simp only [hvs, if_false, now_guard, Bool.true_and, decide_eq_true_eq, this, if_true]
+
+theorem nodeIdx_lt (g : DGraph) (id i : Nat) (h : g.nodeIdx id = some i) : i < g.nodes.length := by
+  simp only [DGraph.nodeIdx, List.idxOf?] at h
+  obtain ⟨hlt, _⟩ := List.findIdx?_eq_some_iff_getElem.mp h
+  exact hlt
+
+/- ---------------------------------------------------------------- graphs built by add_route / do_seal -/
+
+theorem graphOK_empty : GraphOK { nodes := [], edges := [] } :=
+  ⟨fun _ h => (by cases h), fun _ h => (by cases h), fun _ h => (by cases h)⟩
+
+theorem graphOK_addEdge (g g2 : DGraph) (h : GraphOK g) (he : g2.edges = g.edges)
+    (hlen : g.nodes.length ≤ g2.nodes.length) (a b : Nat) (l : List Lk) (ha : a < g2.nodes.length)
+    (hb : b < g2.nodes.length) (hnone : g2.findEdge a b = none) (hl : l ≠ []) :
+    GraphOK { g2 with edges := g2.edges ++ [{ src := a, dst := b, links := l }] } := by
+  refine ⟨?_, ?_, ?_⟩
+  · intro e hmem
+    simp only [List.mem_append, List.mem_singleton] at hmem
+    rcases hmem with h' | h'
+    · have := h.bound e (he ▸ h'); simp only; omega
+    · subst h'; exact ⟨ha, hb⟩
+  · intro e hmem
+    simp only [List.mem_append, List.mem_singleton] at hmem
+    simp only [DGraph.findEdge, List.find?_append]
+    rcases hmem with h' | h'
+    · have := h.uniq e (he ▸ h')
+      simp only [DGraph.findEdge, ← he] at this
+      rw [this]; rfl
+    · subst h'
+      simp only [DGraph.findEdge] at hnone
+      rw [hnone]; simp
+  · intro e hmem
+    simp only [List.mem_append, List.mem_singleton] at hmem
+    rcases hmem with h' | h'
+    · exact h.pos e (he ▸ h')
+    · subst h'; exact hl
+
+theorem graphOK_newEdge (g g' : DGraph) (a b : Nat) (l : List Lk) (h : GraphOK g) (hl : l ≠ [])
+    (hn : g.newEdge a b l = some g') : GraphOK g' := by
+  unfold DGraph.newEdge at hn
+  extract_lets g1 g2 at hn
+  have he : g2.edges = g.edges := by
+    simp only [g2, g1]; split <;> split <;> rfl
+  have hlen : g.nodes.length ≤ g2.nodes.length := by
+    simp only [g2, g1]; split <;> split <;> simp <;> omega
+  split at hn
+  · rename_i x y hx hy
+    split at hn
+    · cases hn
+    · rename_i hnone
+      simp only [Option.some.injEq] at hn
+      subst hn
+      exact graphOK_addEdge g g2 h he hlen x y l (nodeIdx_lt g2 a x hx) (nodeIdx_lt g2 b y hy)
+        (by simpa using hnone) hl
+  · cases hn
+
+theorem graphOK_addRoute (g g' : DGraph) (a b : Nat) (l : List Lk) (sym : Bool) (h : GraphOK g) (hl : l ≠ [])
+    (hn : dijkstraAddRoute g a b l sym = some g') : GraphOK g' := by
+  unfold dijkstraAddRoute at hn
+  split at hn
+  · cases hn
+  · rename_i g1 h1
+    have hg1 := graphOK_newEdge g g1 a b l h hl h1
+    cases sym
+    · simp only [Bool.false_eq_true, if_false, Option.some.injEq] at hn; subst hn; exact hg1
+    · simp only [if_true] at hn
+      exact graphOK_newEdge g1 g' b a l.reverse hg1 (by simpa using hl) hn
+
+theorem graphOK_seal (g : DGraph) (h : GraphOK g) : GraphOK (dijkstraSeal g) ∧ (dijkstraSeal g).nodes = g.nodes := by
+  unfold dijkstraSeal
+  have : ∀ (is : List Nat) (g' : DGraph), (∀ i ∈ is, i < g.nodes.length) → GraphOK g' → g'.nodes = g.nodes →
+      GraphOK (is.foldl (fun g i =>
+        if (g.findEdge i i).isSome then g else { g with edges := g.edges ++ [{ src := i, dst := i, links := [0] }] }) g') ∧
+      (is.foldl (fun g i =>
+        if (g.findEdge i i).isSome then g else { g with edges := g.edges ++ [{ src := i, dst := i, links := [0] }] }) g').nodes
+        = g.nodes := by
+    intro is
+    induction is with
+    | nil => intro g' _ h1 h2; exact ⟨h1, h2⟩
+    | cons i is ih =>
+      intro g' hi h1 h2
+      simp only [List.foldl_cons]
+      apply ih _ (fun j hj => hi j (by simp [hj]))
+      · split
+        · exact h1
+        · rename_i hnone
+          have hi' : i < g'.nodes.length := by rw [h2]; exact hi i (by simp)
+          exact graphOK_addEdge g' g' h1 rfl (Nat.le_refl _) i i [0] hi' hi' (by simpa using hnone) (by simp)
+      · split
+        · exact h2
+        · exact h2
+  exact this (List.range g.nodes.length) g (fun i hi => List.mem_range.mp hi) h rfl
+
+/-- the declarations as the driver replays them, then do_seal -/
+theorem graphOK_routes : ∀ (routes : List (Nat × Nat × Bool × List Lk)) (g0 g : DGraph), GraphOK g0 →
+    (∀ r ∈ routes, r.2.2.2 ≠ []) →
+    routes.foldl (fun acc r => acc.bind fun g => dijkstraAddRoute g r.1 r.2.1 r.2.2.2 r.2.2.1) (some g0) = some g →
+    GraphOK (dijkstraSeal g) := by
+  intro routes
+  induction routes with
+  | nil => intro g0 g h _ he; simp at he; subst he; exact (graphOK_seal _ h).1
+  | cons r rs ih =>
+    intro g0 g h hr he
+    simp only [List.foldl_cons, Option.bind_some] at he
+    cases hadd : dijkstraAddRoute g0 r.1 r.2.1 r.2.2.2 r.2.2.1 with
+    | none =>
+      rw [hadd] at he
+      have : ∀ (rs : List (Nat × Nat × Bool × List Lk)),
+          rs.foldl (fun acc r => acc.bind fun g => dijkstraAddRoute g r.1 r.2.1 r.2.2.2 r.2.2.1) none = none := by
+        intro rs; induction rs with
+        | nil => rfl
+        | cons _ _ ih => simpa using ih
+      rw [this] at he; cases he
+    | some g1 =>
+      rw [hadd] at he
+      exact ih g1 g (graphOK_addRoute g0 g1 _ _ _ _ h (hr r (by simp)) hadd) (fun q hq => hr q (by simp [hq])) he
+
 end SgVerif.C25
